@@ -161,6 +161,8 @@ pub struct Acc {
     states: u64,
     transitions: u64,
     with_shared: u64,
+    history_states: u64,
+    history_transitions: u64,
     with_sub: u64,
     rejected: u64,
     viol: Vec<(String, String, J)>,
@@ -216,6 +218,23 @@ pub fn check_script(g: &G, text: &str, shell: Shell, c: &pipe::Compiled, acc: &m
     };
     if !script.subs.is_empty() {
         acc.with_sub += 1;
+    }
+    // fish keeps within-word tables in global variables: explore all call histories
+    if sh == Sh::Fish && script.subs.len() >= 2 && script.subs.len() <= 6 {
+        match shells::fish_history_check(&script_text, &c.command, 3) {
+            Ok((st, tr)) => {
+                acc.history_states += st;
+                acc.history_transitions += tr;
+            }
+            Err(e) if e.starts_with("after the call history") => {
+                acc.viol.push(("stale-global-tables".into(), format!("--fish script: {e}"), detail(&e)));
+                return;
+            }
+            Err(e) => {
+                acc.machinery.push(format!("fish history explorer: {e}"));
+                return;
+            }
+        }
     }
     if script_text.contains("_subword_shape_") {
         acc.with_shared += 1;
@@ -333,6 +352,8 @@ pub fn run(tier: Tier) -> Report {
         t.states += a.states;
         t.transitions += a.transitions;
         t.with_shared += a.with_shared;
+        t.history_states += a.history_states;
+        t.history_transitions += a.history_transitions;
         t.with_sub += a.with_sub;
         t.rejected += a.rejected;
         t.viol.extend(a.viol);
@@ -355,10 +376,12 @@ pub fn run(tier: Tier) -> Report {
     rep.cov("scripts_read_back", J::i(t.scripts as i64));
     rep.cov("scripts_with_within_word_tables", J::i(t.with_sub as i64));
     rep.cov("scripts_with_shared_table_sets", J::i(t.with_shared as i64));
+    rep.cov("fish_global_table_history_states", J::i(t.history_states as i64));
+    rep.cov("fish_global_table_history_transitions", J::i(t.history_transitions as i64));
     rep.cov(
         "rule",
         J::s(format!(
-            "exhaustive: all trees <= {k} nodes over V0 as `cmd E`, the definition families and DAGs, the order-sensitive family, a sharing-biased family (all pairs of 14 within-word bodies of equal and different shape, with descriptions, commands, placeholders, built-ins and || inside, in |, || and sequences), the corpus; x 4 emitters. Every script is read back by the per-shell reader (own quoting rules, own index base; wrapper -> shared shape function resolved), an automaton is rebuilt from the tables (literal text, description, level per candidate table, command function bodies, within-word tables by canonical form) and the complete product with the REFERENCE automaton is explored (acceptance not compared: the scripts do not carry accepting states). Candidate tables and transition tables must list exactly the same (state, item) pairs; the registration line must name the command. states/transitions = product states/edges."
+            "exhaustive: all trees <= {k} nodes over V0 as `cmd E`, the definition families and DAGs, the order-sensitive family, a sharing-biased family (all pairs of 14 within-word bodies of equal and different shape, with descriptions, commands, placeholders, built-ins and || inside, in |, || and sequences), the corpus; x 4 emitters. Every script is read back by the per-shell reader (own quoting rules, own index base; wrapper -> shared shape function resolved), an automaton is rebuilt from the tables (literal text, description, level per candidate table, command function bodies, within-word tables by canonical form) and the complete product with the REFERENCE automaton is explored (acceptance not compared: the scripts do not carry accepting states). Candidate tables and transition tables must list exactly the same (state, item) pairs; the registration line must name the command. fish keeps within-word tables in --global variables: for every fish script with 2..6 within-word automata all call histories of length <= 3 of the wrapper functions (at both call sites, with the resets the script performs there) are explored breadth-first on the variable map, and after the last call the variables the matcher reads must equal those of a fresh call. states/transitions = product states/edges."
         )),
     );
     rep.cov("exhaustive", J::Bool(true));
